@@ -326,6 +326,15 @@ def check(run, ctx):
     else:
         rets = [r.value for r in ast.walk(rfl.node) if isinstance(r, ast.Return) and r.value is not None]
         run.finding(U8, rfl.name, f"not-cut-at-line-break:{norm(rets[0])[:50] if rets else '?'}", f"{rfl.name} returns `{norm(rets[0])[:70] if rets else '?'}` without cutting at the first line break: the `python` test of the shebang parser then sees text from later lines, so a non-Python script that mentions python early is analysed as Python (syntax-error and header findings on a file type no rule supports)", rfl.loc)
+    # ... and the whole first line: a size-bounded read cuts a long interpreter path before the word the parser looks for
+    bounded = [n for n in inline.flat_nodes(repo, rfl) if isinstance(n, ast.Call) and call_name(n) in ("readline", "read", "readlines") and (n.args or n.keywords)
+               and not (n.args and isinstance(repo.fold(rfl.module, n.args[0]), int) and repo.fold(rfl.module, n.args[0]) < 0)]
+    sliced = [n for n in inline.flat_nodes(repo, rfl) if isinstance(n, ast.Subscript) and isinstance(n.slice, ast.Slice) and n.slice.upper is not None]
+    if bounded or sliced:
+        b = (bounded or sliced)[0]
+        run.finding(U8, rfl.name, f"bounded-read:{norm(b)[:50]}", f"{rfl.name} reads at most a fixed number of characters (`{norm(b)[:60]}`): a shebang whose interpreter path is longer (virtualenv entry points: `#!/home/.../.venv/bin/python3.12`) is cut before the word `python`, so the script is classified unknown and no rule analyses it", rfl.loc)
+    else:
+        run.ok(U8, f"{rfl.name} length", "the first line is read whole (no size-bounded read or slice)")
     return __doc__
 
 
